@@ -104,7 +104,8 @@ def gen_case(rng, tier, stage=None):
                 case["dde"] = rng.choice([2, 3])
             for cn in conns:
                 if rng.random() < 0.7:
-                    cn["delay"] = C.q2s(dt * rng.choice([2, 3, 4]))
+                    # whole and fractional numbers of steps (round(d/dt) >= 2, incl. values in [1.5, 2) steps and half-even ties)
+                    cn["delay"] = C.q2s(dt * rng.choice([2, 3, 4, F(7, 4), F(9, 4), F(5, 2), F(7, 2)]))
                     if rng.random() < 0.3:
                         cn["spread"] = "0"          # an explicit spread of zero is a pure delay, as on scalar edges
         elif st == "gamma":
